@@ -514,6 +514,10 @@ theorem C20_driver_no_copy_is_shared {α : Type} [LE α] [DecidableLE α] (sb : 
     · exact hrun.1
   · exact hrun.1
 
+/-- generated-table obligation: every residual function writes `y0` first, then the fitted parameters, then the fitted
+variables — the order `applyUpdates` has, which is what makes a candidate for a variable win over `y0` -/
+theorem C20_update_order : Gen.updateOrder = ["y0", "pars", "vars"] := rfl
+
 /-- CANDIDATE VALUES REACH THE MODEL: after the first lines of a residual function every fitted parameter the model
 has carries the candidate's value, every fitted variable too — EVEN IF `y0` names it (the candidate wins) —, and
 parameters that are not fitted keep their values -/
